@@ -11,6 +11,7 @@ import random
 EVENTS = [0]      # process-wide count of simulated I/O events (for the evidence: 'simulated time')
 REAL_OPEN = io.open            # captured before any seam is installed
 REAL_STAT = os.stat
+FAKE_FD_BASE = 1 << 20
 SIM_ROOT = '/simfs/'           # simulated files live under this (non-existent) directory; relative names are simulated too
 
 
@@ -233,7 +234,9 @@ class SimFile(object):
         return True
 
     def fileno(self):
-        raise io.UnsupportedOperation('fileno')
+        # a descriptor number no real descriptor has; os.fsync / os.fstat on it are answered by the seam (lib.installed)
+        self._check()
+        return FAKE_FD_BASE + self.hid
 
     def __enter__(self):
         self._check()
@@ -279,6 +282,7 @@ class SimFS(object):
         self.write_events = 0
         self.fail_writes = None
         self.open_events = 0          # library open() calls on simulated paths
+        self.fail_fsync = False       # os.fsync on simulated descriptors is refused with EINVAL
         self.mtimes = {}              # name -> modification time (files have one default time unless a world says otherwise)
         self.max_open = None          # descriptor limit: open() fails with EMFILE while this many library handles are open
         self.fail_opens = None        # {k}: the k-th such open raises EMFILE / EACCES (descriptor table full, unreadable file)
@@ -365,6 +369,29 @@ class SimFS(object):
         size = self.getsize(path)
         t = int(self.getmtime(path))
         return os.stat_result((stat_mod.S_IFREG | 0o644, 0, 0, 1, 0, 0, size, t, t, t))
+
+    def by_fd(self, fd):
+        if isinstance(fd, int) and fd >= FAKE_FD_BASE and fd - FAKE_FD_BASE < len(self.handles):
+            return self.handles[fd - FAKE_FD_BASE]
+        return None
+
+    def fsync(self, fd):
+        h = self.by_fd(fd)
+        if h is None or h.closed:
+            raise OSError(errno.EBADF, 'Bad file descriptor')
+        if self.fail_fsync:
+            # the destination is not a regular file (a character device, a FIFO): fsync is refused
+            self.faults_fired['fsync-refused'] = self.faults_fired.get('fsync-refused', 0) + 1
+            raise OSError(errno.EINVAL, 'Invalid argument')
+        h._ev('fsync', h._pos, 0, 0)
+
+    def fstat(self, fd):
+        import stat as stat_mod
+        h = self.by_fd(fd)
+        if h is None or h.closed:
+            raise OSError(errno.EBADF, 'Bad file descriptor')
+        t = int(self.mtimes.get(h.name, 1700000000.0))
+        return os.stat_result((stat_mod.S_IFREG | 0o644, 0, 0, 1, 0, 0, len(h._buf()), t, t, t))
 
     def stream(self, name, mode='rb'):
         """A handle created by the harness and handed to the library: caller-owned."""
